@@ -461,6 +461,8 @@ class Bin(Factory, Container):
             np.divide(q, self.high - self.low, q)
             np.floor(q, q)
             q = np.array(q, dtype=int)
+            # the division can round up to num for values just below high (see Bin.bin)
+            q[(q == self.num) & selection] = self.num - 1
 
             for index, value in enumerate(self.values):
                 np.not_equal(q, index, selection)
